@@ -8,6 +8,9 @@ What is translated (statement by statement, anything unexpected raises Translate
   * MemoryLeakDetectorList::isInPeriod                        -> Lean boolean function;
   * markCheckingPeriodLeaksAsNonCheckingPeriod                -> (scan period, from, to);
   * constructor initial values, ignoreAllLeaksInTest / expectLeaksInTest, FinalReport periods;
+  * reallocMemory: the whole function is shape-checked (old node removed first, new node stored by
+    storeLeakInformation) and the sources of number / size / period of the node that is
+    re-registered after a FAILED platform realloc are extracted (FieldSrc);
   * the call order of UtestShell::runOneTestInCurrentProcess  -> list of RStep.
 What is only shape-checked (normalised text must be the expected one): getTotalLeaks (list and
 table), totalMemoryLeaks, getLeakFrom, ConstructMemoryLeakReport, report, storeLeakInformation,
@@ -402,6 +405,39 @@ def extract():
     if params[:5] != ["memory", "number", "size", "allocator", "period"]:
         raise TranslateError("MemoryLeakDetectorNode::init parameter order changed: %r" % params)
 
+    # reallocMemory: success = removeNode(old) + storeLeakInformation(new); failure = the old node is re-registered
+    body = norm(function_body(det, r"MemoryLeakDetector::reallocMemory\s*\([^)]*\)\s*\{"))
+    m = re.match(
+        r"^#ifdefCPPUTEST_DISABLE_MEM_CORRUPTION_CHECKallocatNodesSeperately=true;#endif"
+        r"if\(sizeOfMemoryWithCorruptionInfo\(size\)\+sizeof\(MemoryLeakDetectorNode\)<size\)returnNULLPTR;"
+        r"MemoryLeakDetectorNodeoldNode;"
+        r"if\(memory\)\{MemoryLeakDetectorNode\*node=memoryTable_\.removeNode\(memory\);"
+        r"if\(node==NULLPTR\)\{outputBuffer_\.reportDeallocateNonAllocatedMemoryFailure\(file,line,allocator,reporter_\);returnNULLPTR;\}"
+        r"oldNode=\*node;checkForCorruption\(node,file,line,allocator,allocatNodesSeperately\);\}"
+        r"char\*new_memory=reallocateMemoryAndLeakInformation\(allocator,memory,size,file,line,allocatNodesSeperately\);"
+        r"if\(new_memory==NULLPTR&&memory\)\{"
+        r"MemoryLeakDetectorNode\*node=createMemoryLeakAccountingInformation\(oldNode\.allocator_,oldNode\.size_,memory,allocatNodesSeperately\);"
+        r"node->init\(memory,(?P<number>[^,]+),(?P<size>[^,]+),oldNode\.allocator_,(?P<period>[^,]+),oldNode\.allocation_stage_,oldNode\.file_,oldNode\.line_\);"
+        r"memoryTable_\.addNewNode\(node\);\}returnnew_memory;$", body)
+    if not m:
+        raise TranslateError("reallocMemory changed shape: " + body[:600])
+
+    def field_src(text, old, fresh, what):
+        if text == old:
+            return ".old"
+        if text == fresh:
+            return ".fresh"
+        raise TranslateError("reallocMemory, failed-realloc branch: %s of the re-registered node is `%s`" % (what, text))
+    rf_number = field_src(m.group("number"), "oldNode.number_", "allocationSequenceNumber_++", "allocation number")
+    rf_size = field_src(m.group("size"), "oldNode.size_", "size", "size")
+    rf_period = field_src(m.group("period"), "oldNode.period_", "current_period_", "period")
+    expect_shape(det, r"MemoryLeakDetector::reallocateMemoryAndLeakInformation\s*\([^)]*\)\s*\{",
+                 "char*new_memory=reallocateMemoryWithAccountingInformation(allocator,memory,size,file,line,allocatNodesSeperately);"
+                 "if(new_memory==NULLPTR)returnNULLPTR;"
+                 "MemoryLeakDetectorNode*node=createMemoryLeakAccountingInformation(allocator,size,new_memory,allocatNodesSeperately);"
+                 "storeLeakInformation(node,new_memory,size,allocator,file,line);returnnode->memory_;",
+                 "reallocateMemoryAndLeakInformation")
+
     # the plugin chain and the runner
     expect_shape(tplugin, r"TestPlugin::runAllPreTestAction\s*\([^)]*\)\s*\{",
                  "if(enabled_)preTestAction(test,result);next_->runAllPreTestAction(test,result);", "runAllPreTestAction")
@@ -465,6 +501,9 @@ def extract():
         mi.group(1), me.group(1), ignore_value)
     text += "/-- `FinalReport`: period counted, period reported -/\n"
     text += "def finalCountPeriod : Period := %s\ndef finalReportPeriod : Period := %s\n\n" % (final_count, final_report)
+    text += "/-- `reallocMemory`, branch taken when the platform realloc failed: fields of the re-registered node -/\n"
+    text += "def reallocFailNumber : FieldSrc := %s\ndef reallocFailSize : FieldSrc := %s\ndef reallocFailPeriod : FieldSrc := %s\n\n" % (
+        rf_number, rf_size, rf_period)
     text += "/-- `UtestShell::runOneTestInCurrentProcess`: order of the calls (normal path) -/\n"
     text += "def runOneTestOrder : List RStep := %s\n" % L(order)
     text += "end Gen.LeakCode\n"
